@@ -8,6 +8,7 @@ import (
 	"strings"
 	"time"
 
+	"github.com/rulego/streamsql"
 	"github.com/rulego/streamsql/rsql"
 )
 
@@ -758,7 +759,58 @@ func parseObs(sql string) (out [][]string) {
 	// by encoding/json; the performance sub-configurations are constant zero values at this stage)
 	out = append(out, []string{"c-having", hx(canonKw(cfg.Having))})
 	out = append(out, []string{"c-json", hx(canonJSON(cfg))})
+	// direct (non-aggregating) statements are also executed: the rows they produce must not depend on the layout
+	if !cfg.NeedWindow {
+		out = append(out, []string{"x-rows", hx(execDirect(sql))})
+	}
 	return out
+}
+
+var execCols = []string{"a", "b", "temp", "deviceId", "v1", "x_y", "limit_x", "orderby", "fromage", "whereabouts", "grp", "from", "order by", "limit", "a b", "where"}
+
+// execRows: one mixed row, then rows whose columns all carry one of the literals the generator uses in predicates
+var execRows = func() []map[string]interface{} {
+	rows := []map[string]interface{}{
+		{"a": 2, "b": 2.5, "temp": 20, "deviceId": 3, "v1": 0, "x_y": 16, "s": map[string]interface{}{"a": 5}, "limit_x": 100, "orderby": 1, "fromage": -1,
+			"whereabouts": 2, "grp": 7, "from": 1, "order by": 2, "limit": 0, "a b": 16, "where": 3},
+		{"a": -1, "b": nil, "deviceId": 1.5, "x_y": "x", "limit_x": 0, "grp": "LIMITED", "limit": 2.5},
+	}
+	for _, v := range []interface{}{1, 16, 2.5, -3.5, "x", "LIMIT 5", "ORDER BY z", " WHERE ", "a AND b", "_x"} {
+		r := map[string]interface{}{"s": map[string]interface{}{"a": v}}
+		for _, c := range execCols {
+			r[c] = v
+		}
+		rows = append(rows, r)
+	}
+	return rows
+}()
+
+// execDirect runs the statement on the fixed rows through EmitSync and returns a canonical text
+// (JSON with sorted keys per row; `-` for a filtered row).
+func execDirect(sql string) string {
+	s := streamsql.New(streamsql.WithDiscardLog())
+	defer s.Stop()
+	if err := s.Execute(sql); err != nil {
+		return "execute-error: " + err.Error()
+	}
+	var parts []string
+	for _, r := range execRows {
+		row := make(map[string]interface{}, len(r))
+		for k, v := range r {
+			row[k] = v
+		}
+		o, err := s.EmitSync(row)
+		switch {
+		case err != nil:
+			parts = append(parts, "error: "+err.Error())
+		case o == nil:
+			parts = append(parts, "-")
+		default:
+			b, _ := json.Marshal(o)
+			parts = append(parts, string(b))
+		}
+	}
+	return strings.Join(parts, " | ")
 }
 
 func canonJSON(v interface{}) string {
